@@ -551,6 +551,8 @@ func init() {
 		}
 		for _, prov := range []string{"google", "cognito"} {
 			emit(popRunCase(popCase{Provider: prov, Answers: []string{"ok:u,v", "err", "ok:w", "notfound", "notfound", "ok:u", "err", "notfound", "ok:"}}))
+			// a group that loses its last member still exists: the emptied list replaces the old one
+			emit(popRunCase(popCase{Provider: prov, Answers: []string{"ok:u", "ok:", "ok:", "err", "ok:v", "ok:", "notfound", "ok:"}}))
 		}
 		// random
 		emails := []string{"a@x.io", "b@x.io", "A@x.io"}
